@@ -271,6 +271,14 @@ func genPart(cfg Config, emit func(string, bool, []string)) {
 			}
 			g.emit("vrootwatch %d", g.head)
 			step("del " + k("q"))
+			// a key inserted that ends INSIDE the compressed prefix of an inner node: prefix
+			// watchers whose prefix ends inside that edge hold the node's channel
+			step("ins "+k("wxyz1")+" 60", "ins "+k("wxyz2")+" 61")
+			for _, q := range []string{"w", "wx", "wxy", "wxyz", "wxyz1", ""} {
+				g.emit("vprefix %d %s", g.head, k(q))
+				g.emit("vget %d %s", g.head, k(q))
+			}
+			step("ins " + k([]string{"w", "wx", "wxy"}[r.IntN(3)]) + " 62")
 			for v := 0; v < g.nvers; v++ {
 				g.emit("viter %d", v)
 				g.emit("vlen %d", v)
